@@ -36,11 +36,15 @@ dump(struct task_info *info, struct task_stack *st, char *dst, size_t n)
 			char owner = '-';
 			if (body) {
 				s = "?CRPD"[body->state];
-				for (int k = 0; k < NTH; k++)
-					if (body->stack == &st[k].body_stack)
-						owner = (char) ('0' + k);
-				if (body->stack != NULL && owner == '-')
-					owner = '!';
+				/* the owning stack is only meaningful (and only observable through the
+				 * accept/refuse behaviour) while the body is running or paused */
+				if (body->state == BODY_ST_RUNNING || body->state == BODY_ST_PAUSED) {
+					for (int k = 0; k < NTH; k++)
+						if (body->stack == &st[k].body_stack)
+							owner = (char) ('0' + k);
+					if (owner == '-')
+						owner = '!';
+				}
 			}
 			o += (size_t) snprintf(dst + o, n - o, "b%u%u=%c%c,", t, b, s, owner);
 		}
